@@ -184,6 +184,7 @@ func (b *builder) defTree(d int) []*gen.Node {
 	lit := b.tree(d)
 	fn, _ := hasKind(lit, b.fnNames())
 	b.g.Env.Put(&gen.VarInfo{Name: name, T: gen.TAny, Len: -1})
+	b.g.Reserve(name)
 	b.trees = append(b.trees, treeVar{Name: name, Lit: lit, HasFn: fn})
 	return []*gen.Node{gen.Set(name, lit)}
 }
@@ -213,6 +214,7 @@ func (b *builder) defCompInTree() []*gen.Node {
 	}
 	fn, _ := hasKind(lit, b.fnNames())
 	b.g.Env.Put(&gen.VarInfo{Name: name, T: gen.TAny, Len: -1})
+	b.g.Reserve(name)
 	b.g.Env.Put(&gen.VarInfo{Name: tmp, T: gen.TInt, Len: -1})
 	b.trees = append(b.trees, treeVar{Name: name, Lit: lit, HasFn: fn, HasComp: true})
 	return append(out, gen.Set(name, lit), gen.Set(tmp, gen.Int(0)))
@@ -241,6 +243,7 @@ func (b *builder) defFnBox() []*gen.Node {
 	}
 	name := b.g.FreshName()
 	b.g.Env.Put(&gen.VarInfo{Name: name, T: gen.TAny, Len: -1})
+	b.g.Reserve(name)
 	b.trees = append(b.trees, treeVar{Name: name, Lit: lit, HasFn: true})
 	return append(out, gen.Set(name, lit))
 }
@@ -482,6 +485,7 @@ func (b *builder) use(readOnly bool) (*gen.Node, string) {
 			e, _ := b.pickPath(tv, 3)
 			name := b.g.FreshName()
 			b.g.Env.Put(&gen.VarInfo{Name: name, T: gen.TAny, Len: -1})
+			b.g.Reserve(name)
 			return gen.Set(name, e), "alias-after-snapshot"
 		}
 	}
@@ -614,6 +618,9 @@ func drawValue(t *rapid.T, avoidDagNow func() bool) Case {
 	o.SideFx = false
 	g := gen.NewG(t, o, &gen.Env{})
 	b := &builder{t: t, g: g, multiKey: rapid.IntRange(0, 2).Draw(t, "multiKey") != 0}
+	for _, n := range []string{"x", "s1", "s2"} {
+		g.Reserve(n) // the value and its shared parts: never named or reassigned by the shared generator
+	}
 	kind := rapid.SampledFrom([]string{"tree", "tree", "tree", "dag", "dag", "cycle", "cycle", "nonfinite", "computed"}).Draw(t, "valueKind")
 	if kind == "dag" && avoidDagNow() {
 		kind = "tree"
